@@ -426,6 +426,47 @@ def depends_on_multi(op, memo=None):
     return res
 
 
+def find_relation_cycle(structure):
+    """own DFS over the link fields (single link: its reference; multi link: every reference; composite: its members);
+    returns the kinds along one cycle or None.  Iterative: must not recurse on the structure it diagnoses."""
+    ops = walk_all_ops(structure)
+    def succ(o):
+        out = []
+        link = o.relation
+        if type(link).__name__ == "MultiRelationLink":
+            out.extend(link._reference_nodes)
+        elif link._reference_node is not None:
+            out.append(link._reference_node)
+        if is_composite(o):
+            out.extend(n.operation for n in composite_nodes(o)[2])
+        return out
+    color = {}
+    for root in ops:
+        if id(root) in color:
+            continue
+        stack = [(root, iter(succ(root)))]
+        path = [root]
+        color[id(root)] = 1
+        while stack:
+            node, it = stack[-1]
+            nxt = next(it, None)
+            if nxt is None:
+                color[id(node)] = 2
+                stack.pop()
+                path.pop()
+                continue
+            c = color.get(id(nxt), 0)
+            if c == 1:
+                i = next(j for j, x in enumerate(path) if x is nxt)
+                return [f"{type(x).__name__}{op_qubits(x) if not is_composite(x) else ''}[{type(x.relation).__name__}:{x.relation._relation_type.name}]"
+                        for x in path[i:]]
+            if c == 0:
+                color[id(nxt)] = 1
+                stack.append((nxt, iter(succ(nxt))))
+                path.append(nxt)
+    return None
+
+
 def op_qubits(op):
     if hasattr(op, "qubit_indices"):
         return list(op.qubit_indices)
@@ -528,6 +569,7 @@ class Stats:
         self.skipped = {}
         self.hashes = set()
         self.samples = []
+        self.errors = []
         self.probe = {"oracle_vs_library_mismatch": 0, "oracle_vs_library_checked": 0, "first_read_relinks": 0,
                       "not_drawn_two_qubit": 0, "overlap_offsets": 0, "overlap_max_ratio": 0.0, "draws": 0}
 
@@ -555,6 +597,7 @@ class Stats:
             self.skipped[k] = self.skipped.get(k, 0) + v
         self.hashes |= o.hashes
         self.samples.extend(o.samples)
+        self.errors.extend(o.errors)
         for k, v in o.probe.items():
             if k == "overlap_max_ratio":
                 self.probe[k] = max(self.probe[k], v)
@@ -620,7 +663,34 @@ def check_case(circuit, program, case, stats, verbose=False):
     # ---- observation before drawing (fresh memos, public API) -------------------------------------------------
     common.clear_caches()
     links_first = [(id(o), id(o.relation)) for o in walk_all_ops(circuit.circuit_structure)]
-    pre = snapshot(circuit, qubits, fresh=True)
+    try:
+        pre = snapshot(circuit, qubits, fresh=True)
+    except RecursionError as pre_err:
+        # the circuit cannot even list its operations / report times (nothing was drawn yet): an outcome of the code
+        # under test, not of the harness.  Find the cause by an own walk, then ask the drawing itself.
+        common.clear_caches()
+        cycle = find_relation_cycle(circuit.circuit_structure)
+        cause = ("relation-cycle" if cycle else "deep-relation-chain") + "-after-" + \
+            {"none": "build", "mod": "apply_modifiers", "modflat": "apply_modifiers+flatten"}.get(program.get("post", "none"), "build")
+        stats.n["succeeds"] += 1
+        err = None
+        try:
+            lib.dc.plot_circuit(circuit, channel_order=None if order is None else list(order),
+                                channel_map=None if channel_map is None else dict(channel_map), compact_visualization=compact)
+        except Exception as e:  # noqa
+            err = e
+        finally:
+            plt.close("all")
+            common.clear_caches()
+        stats.probe["draws"] += 1
+        stats.cases += 1
+        say("  circuit.operations / times raise", type(pre_err).__name__, "before drawing; own walk finds cycle:", cycle)
+        if err is not None and not expect_reject:
+            fail(f"plot_circuit:raises:{type(err).__name__}:{cause}", "drawing succeeds for every circuit the API can build",
+                 "plot_circuit (already circuit.operations / duration raise without drawing)",
+                 {"plot_circuit": f"{type(err).__name__}", "circuit.operations without drawing": type(pre_err).__name__,
+                  "relation cycle (own walk over the link fields)": cycle}, "a figure")
+        return fail.count
     links_norm = [(id(o), id(o.relation)) for o in walk_all_ops(circuit.circuit_structure)]
     if links_first != links_norm:
         stats.probe["first_read_relinks"] += 1
@@ -1010,7 +1080,18 @@ def run_job(job):
                             stats.skip(f"program cannot be built: {type(e).__name__}")
                             break
                     h = hashlib.blake2b(json.dumps([program, case], sort_keys=True).encode(), digest_size=8).digest()
-                    n = check_case(circuit, program, case, stats)
+                    try:
+                        n = check_case(circuit, program, case, stats)
+                    except Exception as e:  # noqa  one input must never take the module down
+                        tb = traceback.extract_tb(e.__traceback__)
+                        fmt = lambda fr: f"{os.path.basename(fr.filename)}:{fr.lineno}:{fr.name}"
+                        stats.errors.append({"program": program, "case": case, "error": f"{type(e).__name__}: {str(e)[:200]}",
+                                             "frames": [fmt(fr) for fr in tb[:8]] + ["..."] + [fmt(fr) for fr in tb[-8:]]})
+                        stats.skip(f"unexpected {type(e).__name__} while evaluating one input (see probes)")
+                        L().plt.close("all")
+                        common.clear_caches()
+                        circuit = None
+                        continue
                     if nontrivial(program, case):
                         stats.hashes.add(h)
                     if n:
@@ -1165,6 +1246,9 @@ def family_edge():
         {"items": [sub([op("Rx180", 0)], 0), op("Ry90", 0)], "post": "none"},
         {"items": [sub([op("Rx180", 0)], 0), op("Ry90", 0)], "post": "mod"},
         {"items": [op("CPhase", [6, 6])], "post": "none"},
+        # unroll + flatten under global durations A leaves a relation cycle (circuit.operations itself recurses for ever)
+        {"items": [sub([op("DispersiveMeasure", 5), sub([op("SingleQubitOperation", 0, d=0.0), op("Ry90", 3)], 3, rel=[0, "F"]),
+                        op("VirtualPhase", 3, rel=[1, "S"])], 2)], "post": "modflat"},
     ]
 
 
@@ -1331,6 +1415,9 @@ def main(argv=None):
         {"assumption": f"the circuit is observed through circuit.operations, whose first call re-links relation-less children of sub-circuits (seen in {pr['first_read_relinks']} cases, happens on any read); the drawing itself must not re-link anything (checked as a clause)", "ok": True},
         {"assumption": f"two-qubit kinds without a draw factory (TwoQubitOperation, TwoQubitVirtualPhase) are silently not drawn ({pr['not_drawn_two_qubit']} operation instances); they are treated as non-drawable kinds", "ok": True},
         {"assumption": f"simultaneous two-qubit gates with overlapping row ranges are displaced on purpose; accepted up to half the gate duration ({pr['overlap_offsets']} displaced placements, max |dx|/duration {pr['overlap_max_ratio']:.3f})", "ok": True},
+        {"assumption": f"no input raised an unexpected exception in the harness or outside the clauses ({len(total.errors)} inputs skipped" +
+                       ("".join("; " + e["error"] + " at " + e["frames"][-1] + " for " + json.dumps(e["program"])[:400] for e in total.errors[:3])) + ")",
+         "ok": not total.errors and not any(k.startswith("harness error") for k in total.skipped)},
         {"assumption": "every case really reached matplotlib (Agg)", "ok": pr["draws"] == total.cases and total.cases > 0},
     ]
     for f in total.failures.values():
@@ -1342,9 +1429,10 @@ def main(argv=None):
           f"{len(out['failures'])} failure keys, skipped {out['skipped']}, {out['wall_s']} s")
     for f in out["failures"]:
         print("  FAILURE", f["key"])
-    harness = [k for k in out["skipped"] if k.startswith("harness error")]
-    if harness or total.cases == 0:
-        print("HARNESS ERROR:", harness or "no case was evaluated")
+    for e in total.errors[:5]:
+        print("  UNEXPECTED (input skipped):", e["error"], "|", json.dumps(e["program"]), "|", json.dumps(e["case"]), "|", e["frames"][-4:])
+    if total.cases == 0:     # only a defect that prevents ANY evaluation is a harness failure
+        print("HARNESS ERROR: no case was evaluated", out["skipped"])
         return 2
     return 0
 
